@@ -124,3 +124,34 @@ Theorem C11_QI_primitive_perm_invariant : forall (p : profile) (rt : Q -> Q) met
        /\ Forall2 (pair_corr pi) tr' tr /\ length tr = m_obs M0 - 1.
 Proof. exact QI_primitive_perm_invariant. Qed.
 Print Assumptions C11_QI_primitive_perm_invariant.
+
+(* ---- Method::Single, every entry point, ties included (Proofs/PermSingle.v) ----
+   M0' is M0 with rows and columns permuted by the bijection pi.  For any two
+   entry points (the same or different ones) and every threshold t, cutting the
+   two returned dendrograms after their steps of height <= t gives partitions
+   that correspond under pi.  No tie-freeness is needed: both partitions are
+   the components of isomorphic threshold graphs (C04). *)
+Require Import KV.Model.Linkage KV.Proofs.RelabelWF KV.Proofs.MstCuts KV.Proofs.CriteriaRun KV.Proofs.PermSingle.
+
+Theorem C11_single_perm_invariant : forall (T : Type) (F : fops T) (p : profile),
+  (forall a, f_ltb F a a = false) ->
+  (forall a b c, f_ltb F a b = true -> f_ltb F b c = true -> f_ltb F a c = true) ->
+  (forall a b c, f_ltb F a b = false -> f_ltb F b c = false -> f_ltb F a c = false) ->
+  (forall a b, f_eqb F a b = true -> f_ltb F b a = false) ->
+  (forall a, f_eqb F a a = true) ->
+  forall (a a' : algo) (pi : nat -> nat) s1 d1 s2 d2 (m m' : list T) n sr dr mr sr' dr' mr' M0 M0',
+  run_with F p a Single s1 d1 m n = Ok (sr, dr, mr) ->
+  run_with F p a' Single s2 d2 m' n = Ok (sr', dr', mr') ->
+  prologue p m n = Ok M0 -> prologue p m' n = Ok M0' -> m_obs M0' = m_obs M0 -> 1 <= m_obs M0 ->
+  Forall (fun v => f_ltb F v (f_max F) = true) m -> Forall (fun v => f_ltb F v (f_inf F) = true) m ->
+  Forall (fun v => f_ltb F v (f_max F) = true) m' -> Forall (fun v => f_ltb F v (f_inf F) = true) m' ->
+  (forall x, x < m_obs M0 -> pi x < m_obs M0) ->
+  (forall x y, x < m_obs M0 -> y < m_obs M0 -> pi x = pi y -> x = y) ->
+  (forall y, y < m_obs M0 -> exists x, x < m_obs M0 /\ pi x = y) ->
+  (forall x y, x < m_obs M0 -> y < m_obs M0 -> cell_or (f_inf F) M0' x y = cell_or (f_inf F) M0 (pi x) (pi y)) ->
+  forall t : T, exists j j', cut_at (kops_of F Single) t j (heights dr) /\ cut_at (kops_of F Single) t j' (heights dr')
+    /\ forall x y, x < m_obs M0 -> y < m_obs M0 ->
+        (labi (m_obs M0) (d_steps dr') j' x = labi (m_obs M0) (d_steps dr') j' y
+         <-> labi (m_obs M0) (d_steps dr) j (pi x) = labi (m_obs M0) (d_steps dr) j (pi y)).
+Proof. exact single_perm_invariant. Qed.
+Print Assumptions C11_single_perm_invariant.
